@@ -78,11 +78,18 @@ def _prefix_props(full, part, err):
     declared = [r['options'].get('length') for r in part if 'length' in r['options']]
     short = any(req in declared and req != 96 for req, got in st.short_reads)
     if short and part:
-        # the recorded known finding is: the short content still ends with a newline, so the
-        # trailing-newline check cannot see the damage.  Anything else is a different defect.
-        last = part[-1]
-        c = last.get('text', last.get('diff'))
-        if c is not None and len(c) and not bool(lift(c).endswith('\n' if lift(c).kind is str else b'\n')):
+        # the recorded known finding is: the bytes that *were* present for the section end with a newline
+        # (possibly followed by indentation spaces that are stripped), so the trailing-newline check cannot see
+        # the damage.  Anything else that alters a section is a different defect.
+        raw = lift(st.value())
+        el = raw.el
+        k = len(el)
+        ind = part[-1]['options'].get('indent', 0) if isinstance(part[-1]['options'].get('indent', 0), int) else 0
+        j = 0
+        while j < ind and k > 0 and isinstance(el[k - 1], int) and el[k - 1] == 32:
+            k -= 1
+            j += 1
+        if k == 0 or not bool(lift(mk_seq(el[:k], bytes)).endswith(b'\n')):
             short = False
     for a, b in zip(part, full):
         # (a yielded section whose content read came back short is the recorded known finding;
@@ -230,7 +237,13 @@ def replay(ob, label, w):
     # classify: a section was yielded although the stream returned fewer bytes than its declared length
     declared = [r['options'].get('length') for r in part if 'length' in r['options']]
     short_content = [s for s in st.short if s[0] in declared and s[0] != 96]
-    lastc = part[-1].get('text', part[-1].get('diff')) if part else None
-    ends_nl = lastc is not None and len(lastc) > 0 and lastc.endswith('\n' if isinstance(lastc, str) else b'\n')
+    # the bytes actually present for the short section = the tail of the input
+    ind = part[-1]['options'].get('indent', 0) if part and isinstance(part[-1]['options'].get('indent', 0), int) else 0
+    tail = G
+    j = 0
+    while j < ind and tail.endswith(b' '):
+        tail = tail[:-1]
+        j += 1
+    ends_nl = tail.endswith(b'\n')
     sig = 'short-read-accepted' if (short_content and ends_nl) else 'framing:altered-section'
     return {'violated': True, 'signature': sig, 'detail': '%s; input %r; short reads %r' % (bad, G, st.short)}
